@@ -1,21 +1,23 @@
-"""Per-property check configuration for /verif/check.
+"""Per-property check configuration for /verif/check, assembled from lib/props.d/*.py.
 
-unit:  bin     name of the test binary
-       pkg     package directory (relative to /repo) the harness is injected into
-       inject  [(harness dir under /verif/harness, package dir)] files added by overlay
-       tests   [{name, mode: rapid|loop, quick: n, thorough: n, shards: {tier: k}, race, args, env}]
+Each fragment defines PROP_ID, PROP (driver config) and CLAIM (manifest text).
+
+PROP:  level        evidence level (exploration | fault_enumeration | ...)
+       assumptions  list of strings copied into the evidence file
+       guard_s      optional {tier: wall-clock guard in seconds} (expiry = exit 2, never a violation)
+       units: [ {
+         bin     name of the test binary
+         pkg     package directory (relative to /repo) that is compiled as the test package
+         inject  [(harness dir under /verif/harness, package dir under /repo)] files ADDED by build overlay
+         tests   [{name, mode: rapid|loop, quick: n, thorough: n, shards: {tier: k}, race: bool,
+                   args: [...extra binary flags], env: {...}, salt: int, shrinktime: "20s"}]
+       } ]
+CLAIM: engine, technique, text, design_ref, note
 """
+import glob, os, runpy
 
-PROPS = {}
-
-PROPS["C18"] = {
-    "level": "exploration",
-    "assumptions": ["math/big is the reference arithmetic", "ByzantineMajority/Minority(0) panics by contract and is outside the domain"],
-    "units": [{
-        "bin": "c18", "pkg": "tm/tmconsensus", "inject": [("c18", "tm/tmconsensus")],
-        "tests": [
-            {"name": "TestVerifC18Thresholds", "quick": 200000, "thorough": 16000000, "shards": {"thorough": 16}},
-            {"name": "TestVerifC18Sweep", "mode": "loop", "quick": 200000, "thorough": 3000000, "shards": {"thorough": 1}},
-        ],
-    }],
-}
+PROPS, CLAIMS = {}, {}
+for _f in sorted(glob.glob(os.path.join(os.path.dirname(os.path.abspath(__file__)), "props.d", "*.py"))):
+    _ns = runpy.run_path(_f)
+    PROPS[_ns["PROP_ID"]] = _ns["PROP"]
+    CLAIMS[_ns["PROP_ID"]] = _ns["CLAIM"]
